@@ -19,6 +19,9 @@ def check(run):
              'the driver call is dominated by a check that excludes underflow')
     for cfg in configs(run, extra_quick=('full',)):
         F = run.facts(cfg)
+        # helpers this property stands on (rule sets owned by other properties, see common.deps)
+        from common import deps as _deps
+        _deps(run, F, 'isnone', 'agg_gates', 'accessors')
         ks = find_kernels(F)
         if cfg == 'full':
             run.floor('GATE', 'rolling entry points (config full)', len(ks), 38)
@@ -37,6 +40,9 @@ def check(run):
         # element that leaves the window (or the window's first index) at the right step
         drivers.check_drivers(run, F, rules=('DRV.len', 'DRV.early', 'SEQ.len', 'DRV.args', 'DRV.iter',
                                              'DRV.cover'))
+    # every container the generic code can be instantiated with hands out its elements in logical order
+    from common import dep_backends as _dep_backends
+    _dep_backends(run)
     return run.finish(
         'other',
         'For every rolling entry point (36 in tea-rolling, 2 in tevec behind `fdiff`): the '
